@@ -14,6 +14,7 @@
 package main
 
 import (
+	"bytes"
 	"fmt"
 	"sort"
 	"strings"
@@ -70,6 +71,26 @@ func buildSigners(c *vf.Ctx) map[string]*signerSpec {
 		m[sp.name] = sp.finish(edCA.native, uint64(i+1))
 	}
 	strangerBlob = edKey(c, "stranger", 9).blob
+	otherCert := map[string][]byte{
+		ref.RSA:     makeCert(r2, edCA.native, 900).Marshal(),
+		ref.ED25519: makeCert(ed3, edCA.native, 901).Marshal(),
+	}
+	for _, sp := range list {
+		switch {
+		case sp.cert:
+			sp.otherSame, sp.otherType = otherCert[sp.key.format], sp.key.blob
+		case sp.key.format == ref.RSA:
+			sp.otherSame, sp.otherType = r2.blob, strangerBlob
+			if sp.key == r2 {
+				sp.otherSame = r1.blob
+			}
+		default:
+			sp.otherSame, sp.otherType = strangerBlob, r2.blob
+		}
+		if bytes.Equal(sp.otherSame, sp.blob) || bytes.Equal(sp.otherType, sp.blob) {
+			panic("harness: substitute key blob equals the key of " + sp.name)
+		}
+	}
 	return m
 }
 
@@ -169,7 +190,7 @@ func run(c *vf.Ctx) {
 	if c.Thorough {
 		tierNote = "thorough tier: all skeletons, EXT_INFO variants and method lists at <=2 deviations; <=3 deviations for the 24 core configurations (ordered subsets of {Password, KeyboardInteractive, PublicKeys(k1,k2)}, RetryableAuthMethod/AuthCallback variants; accepting and rejecting persona, no EXT_INFO) and for PublicKeys(a,b) of every signer pair (accepting persona, server-sig-algs=rsa-sha2-256,rsa-sha2-512); cap-reaching executions <=2 (signer-kind configurations <=1) deviations within their first 8 choice points"
 	}
-	c.Rule("part 1: for every client configuration (all 64 ordered subsets of {Password, KeyboardInteractive, PublicKeys(k1), PublicKeys(k1,k2)}; 9 RetryableAuthMethod and AuthCallback variants; 14 pairs of signer kinds {ed25519, RSA AlgorithmSigner, RSA MultiAlgorithmSigner with 5 algorithm lists, RSA/ed25519 certificates over each, plain Signer, the package's own signer} in 7 method skeletons) x server persona {accepting, rejecting, partial-success-forever} x EXT_INFO variant (8 for RSA configurations, 2 otherwise): ALL executions of the real clientAuthenticate in which the scripted server deviates from the persona's default answer at <=2 points (menu per request: FAILURE with each of the 8 method lists x partial success yes/no, SUCCESS, 4 kinds of PK_OK, INFO_REQUEST with 0/1/2 prompts, banner, EXT_INFO, DISCONNECT, EOF, unexpected type, truncated message); " + tierNote + "; non-trivial = distinct (persona, EXT_INFO variant, multiset of (deviating answer, request kind it answers)) with >=1 deviation; states = distinct abstract (persona, callback kind, pending request kind, latest list, requests so far, deviations) tuples; oracle = trace invariants + reference model ref/sshclientauth (RFC 4252/4256/8308/8332 codec, algorithm choice, signed data, standard library signature verification). part 2: real NewClientConn x real NewServerConn over a buffered in-memory connection for every client method set x server configuration (single stage and partial-success chains; every key type, signer kind and certificate x server algorithm lists); compatible pairs must authenticate")
+	c.Rule("part 1: for every client configuration (all 64 ordered subsets of {Password, KeyboardInteractive, PublicKeys(k1), PublicKeys(k1,k2)}; 9 RetryableAuthMethod and AuthCallback variants; 14 pairs of signer kinds {ed25519, RSA AlgorithmSigner, RSA MultiAlgorithmSigner with 5 algorithm lists, RSA/ed25519 certificates over each, plain Signer, the package's own signer} in 7 method skeletons) x server persona {accepting, rejecting, partial-success-forever} x EXT_INFO variant (8 for RSA configurations, 2 otherwise): ALL executions of the real clientAuthenticate in which the scripted server deviates from the persona's default answer at <=2 points (menu per request: FAILURE with each of the 8 method lists x partial success yes/no, SUCCESS, PK_OK with every combination of {queried algorithm, other algorithm of the key's family, algorithm of another key type, unknown name} x {queried key blob, another key of the same type, blob of another type, truncated blob}, INFO_REQUEST with 0/1/2 prompts, banner, EXT_INFO, DISCONNECT, EOF, unexpected type, truncated message); " + tierNote + "; non-trivial = distinct (persona, EXT_INFO variant, multiset of (deviating answer, request kind it answers)) with >=1 deviation; states = distinct abstract (persona, callback kind, pending request kind, latest list, requests so far, deviations) tuples; oracle = trace invariants + reference model ref/sshclientauth (RFC 4252/4256/8308/8332 codec, algorithm choice, signed data, standard library signature verification). part 2: real NewClientConn x real NewServerConn over a buffered in-memory connection for every client method set x server configuration (single stage and partial-success chains; every key type, signer kind and certificate x server algorithm lists); compatible pairs must authenticate")
 	c.Assume("the scripted transport stands for handshakeTransport: packets are delivered in order, DISCONNECT is turned into an error by the transport layer; BannerCallback is exercised in part 2 only")
 	c.Assume("crypto/rsa, crypto/ed25519, crypto/sha* of the standard library verify signatures correctly")
 	c.Assume("default RSA algorithm preference of a signer that states none is rsa-sha2-256, rsa-sha2-512, ssh-rsa as documented by the package (signers that state one: their order)")
